@@ -7,7 +7,7 @@ Shares4 == <<5000000, 3000001, 1000002, 1000000>>     \* the same world without 
 H(a, r) == hist' = Append(hist, [act |-> a, args |-> r])
 Ids == DOMAIN msgs \cup {nextId}         \* existing ids plus one that does not exist
 SlcIds == {i \in DOMAIN msgs : msgs[i].kind \in Signable} \cup {nextId}
-GPut == nextId <= MaxMsgs /\ \E k \in {"ref", "slc", "uv"} : (Family \in {"ev", "prune"} => k = "ref") /\ (Family = "sig" => k = "slc") /\ ((k = "uv") = (Family = "uvsig"))
+GPut == nextId <= MaxMsgs /\ \E k \in {"ref", "slc", "uv"} : (Family \in {"ev", "prune"} => k = "ref") /\ (Family \in {"sig", "electprune"} => k = "slc") /\ ((k = "uv") = (Family = "uvsig"))
                                                         /\ Put(k) /\ H("Put", [kind |-> k])
 \* rejected requests are generated for one canonical validator only (they all leave the state unchanged)
 SignOk(v, id, mode) == id \in DOMAIN msgs /\ v \notin jailed /\ mode = "good" /\ msgs[id].kind \in Signable /\ ~\E s \in msgs[id].sigs : s.val = v
@@ -58,6 +58,11 @@ GEstimateOk == \E v \in {1, 2, 3}, id \in SlcIds, x \in EstValues : EstOk(v, id)
 GNextE == \/ (~HasReassign /\ (GPut \/ GEstimateOk \/ GEndBlock))
           \/ (GReassign /\ PrintT(<<"HIST", ToJson(hist')>>))
           \/ (HasReassign /\ (GEstimateOk \/ GEndBlockT))
+\* "electprune" family: a logic call with an error report collects evidence, its gas estimate is elected meanwhile, and
+\* it ages out: what validators supplied before the election still counts at pruning time
+GEvidenceS == \E v \in {3, 4}, id \in DOMAIN msgs, e \in EvValues : msgs[id].ev[v] = None /\ v \notin jailed
+                 /\ Evidence(v, id, e) /\ H("Evidence", [v |-> v, id |-> id, e |-> e])
+GNextP == GPut \/ GSetErr \/ GEvidenceS \/ GEstimateOk \/ GEndBlockT \/ (height = 1 /\ Len(hist) >= 4 /\ Advance(349) /\ H("Advance", [dh |-> 349]))
 GInit == Init /\ hist = <<>>
 Last == IF hist = <<>> THEN <<>> ELSE hist[Len(hist)]
 GView == <<Last, res, msgs, nextId, keyver, refHeight, jailed, height>>
